@@ -120,7 +120,7 @@ func init() {
 func init() {
 	addProp(&propDef{
 		ID: "C04", Check: "route", Level: "exploration",
-		Rule: "command trees: the shapes listed under bounds (depth <=2 quick / <=3 thorough, fan-out 2, 1-2 aliases, one alias equal to a value used at another level) x every assignment of the per-level declaration/spec pairs {none, `[-f]`, `X`, `[-f] X`, `[X]`, `-f X...`} x every target command x every alias combination along its path x every combination of per-level argvs from {(empty), -f, x, -f x, x y, -z} that do not name a direct sub-command; each invocation runs on a freshly built application; the reference router splits at the first token naming a direct child, validates the prefix with the reference matcher and recurses; judged: exactly the addressed Action ran once, each level holds its own tokens, or the first rejecting level yields an error and nothing ran; non-trivial = invocations reaching depth >= 1",
+		Rule: "command trees: the shapes listed under bounds (depth <=2 quick / <=3 thorough, fan-out 2, 1-2 aliases, one alias equal to a value used at another level) x every assignment of the per-level declaration/spec pairs {none, `[-f]`, `X`, `[-f] X`, `[X]`, `-f X...`, `[-f] [-- X...]`} x every target command x every alias combination along its path x every combination of per-level argvs from {(empty), -f, x, -f x, x y, -z, --, -- x, -f -- -f} that do not name a direct sub-command; each invocation runs on a freshly built application; the reference router splits at the first token naming a direct child, validates the prefix with the reference matcher and recurses; judged: exactly the addressed Action ran once, each level holds its own tokens, or the first rejecting level yields an error and nothing ran; non-trivial = invocations reaching depth >= 1",
 		Assumptions: []string{"per-level validation uses the reference semantics of DESIGN.md section 4"},
 	})
 }
